@@ -250,3 +250,5 @@ func muxObfuscator(method byte, key [32]byte) (mux.Obfuscator, error) {
 func muxSession(id uint32, o mux.Obfuscator) *mux.Session {
 	return mux.MakeSession(id, mux.SessionConfig{Obfuscator: o, MsgOnWireSizeLimit: appDataMaxLength, InactivityTimeout: 100 * time.Hour})
 }
+
+func netConn(c net.Conn) net.Conn { return c }
